@@ -6,29 +6,26 @@ Import ListNotations.
 Local Open Scope N_scope.
 
 (* ------------------------------------------------------------ constants *)
-Definition n_u8 : str := [103;117;105;110;116;56].
-Definition n_u16 : str := [103;117;105;110;116;49;54].
-Definition n_u32 : str := [103;117;105;110;116;51;50].
-Definition n_u64 : str := [103;117;105;110;116;54;52].
-(* facts about the table regenerated from _create_const *)
-Lemma wl8 : wrap_lookup n_u8 const_wrap_table = Some 8%Z. Proof. vm_compute. reflexivity. Qed.
-Lemma wl16 : wrap_lookup n_u16 const_wrap_table = Some 16%Z. Proof. vm_compute. reflexivity. Qed.
-Lemma wl32 : wrap_lookup n_u32 const_wrap_table = Some 32%Z. Proof. vm_compute. reflexivity. Qed.
-Lemma wl64 : wrap_lookup n_u64 const_wrap_table = Some 64%Z. Proof. vm_compute. reflexivity. Qed.
+(* every documented width is the exponent the regenerated table of _create_const wraps by *)
+Lemma widths_in_table :
+  forallb (fun p => match wrap_lookup (fst p) const_wrap_table with Some k => Z.eqb k (snd p) && Z.ltb 0 k | None => false end)
+          unsigned_widths = true.
+Proof. vm_compute. reflexivity. Qed.
+
+Lemma width_lookup_in fund k : forall tbl, width_lookup fund tbl = Some k -> In (fund, k) tbl.
+Proof.
+  induction tbl as [|[n w] t IH]; cbn [width_lookup]; [discriminate|].
+  destruct (str_eqb n fund) eqn:E.
+  - apply str_eqb_eq in E. subst. intro H. injection H as <-. left. reflexivity.
+  - intro H. right. exact (IH H).
+Qed.
 
 Lemma width_cases fund k : unsigned_width fund = Some k ->
   wrap_lookup fund const_wrap_table = Some k /\ (0 < k)%Z.
 Proof.
-  unfold unsigned_width. fold n_u8 n_u16 n_u32 n_u64.
-  destruct (str_eqb fund n_u8) eqn:E8.
-  { apply str_eqb_eq in E8. subst. intro H. injection H as <-. split; [exact wl8|reflexivity]. }
-  destruct (str_eqb fund n_u16) eqn:E16.
-  { apply str_eqb_eq in E16. subst. intro H. injection H as <-. split; [exact wl16|reflexivity]. }
-  destruct (str_eqb fund n_u32) eqn:E32.
-  { apply str_eqb_eq in E32. subst. intro H. injection H as <-. split; [exact wl32|reflexivity]. }
-  destruct (str_eqb fund n_u64) eqn:E64.
-  { apply str_eqb_eq in E64. subst. intro H. injection H as <-. split; [exact wl64|reflexivity]. }
-  discriminate.
+  intro H. apply width_lookup_in in H. pose proof widths_in_table as W. rewrite forallb_forall in W.
+  specialize (W _ H). cbn [fst snd] in W. destruct (wrap_lookup fund const_wrap_table) as [k'|]; [|discriminate].
+  apply andb_true_iff in W. destruct W as [A B]. apply Z.eqb_eq in A. apply Z.ltb_lt in B. subst. split; [reflexivity|exact B].
 Qed.
 
 Theorem const_in_range fund k v :
